@@ -654,6 +654,22 @@ def _canonicalise(tree):
     return tree
 
 
+def bound_args(callee, call: ast.Call):
+    """{parameter name: argument expression} of a call of the repository function `callee` (a Func): positional and keyword arguments alike;
+    None when the call cannot be bound (starred arguments, unknown keyword)"""
+    a = callee.node.args
+    names = [x.arg for x in a.posonlyargs + a.args]
+    kwonly = [x.arg for x in a.kwonlyargs]
+    if any(isinstance(x, ast.Starred) for x in call.args) or any(k.arg is None for k in call.keywords) or len(call.args) > len(names):
+        return None
+    out = dict(zip(names, call.args))
+    for k in call.keywords:
+        if k.arg not in names + kwonly or k.arg in out:
+            return None
+        out[k.arg] = k.value
+    return out
+
+
 def own_walk(fn):
     """the nodes of a function's own body: nested function / class definitions and lambdas are yielded but not entered (their returns and
     assignments belong to them)"""
